@@ -1,3 +1,4 @@
+import NgVerif.Proofs.Vtk
 import NgVerif.Proofs.Mesh
 /-
   C17 — Mesh files follow the formats Neuroglancer reads and survive a round trip.
@@ -71,5 +72,25 @@ theorem affine_keeps_outward_orientation {K : Type} [CommRing K] [LinearOrder K]
 /-- a mirror really flips: non-vacuity of the `det < 0` branch on the model the driver executes -/
 example : affineTransform (α := Int) ⟨-1, 0, 0, 0, 1, 0, 0, 0, 1⟩ ⟨5, 0, 0⟩ [⟨1, 2, 3⟩] [(0, 1, 2)]
     = ([⟨4, 2, 3⟩], [(2, 1, 0)]) := by decide
+
+/-- the VTK export is parseable by the subset grammar Neuroglancer accepts: for EVERY title, vertex list,
+    triangle list over existing vertices and list of vertex attributes with one to four components and one
+    row per vertex, the token-level file the writer model produces (compared byte for byte with the real
+    writer's output on every run) is accepted by the recogniser of that subset: header, title of at most 255
+    characters, `ASCII`, `DATASET POLYDATA`, `POINTS n float` followed by exactly n rows of three numbers,
+    `POLYGONS m 4m` followed by exactly m rows `3 a b c`, optional `POINT_DATA n` with `SCALARS`/`LOOKUP_TABLE`
+    blocks of n rows each -/
+theorem vtk_export_is_accepted (title version : String) (pts : List (List String)) (tris : List (List Nat))
+    (attrs : List Vtk.Attr) (hp : ∀ p ∈ pts, p.length = 3)
+    (ht : ∀ t ∈ tris, t.length = 3 ∧ ∀ i ∈ t, i < pts.length)
+    (ha : ∀ a ∈ attrs, 1 ≤ a.comps ∧ a.comps ≤ 4 ∧ a.rows.length = pts.length ∧ ∀ r ∈ a.rows, r.length = a.comps) :
+    Vtk.accepts (Vtk.write title version pts tris attrs) = true :=
+  Vtk.write_accepted title version pts tris attrs hp ht ha
+
+/-- the recogniser is not vacuous: it refuses a triangle over a missing vertex, a five-component attribute
+    (the writer only warns about those), and a wrong polygon count -/
+example : Vtk.accepts (Vtk.write "t" "1" [["0", "0", "0"]] [[0, 0, 1]] []) = false ∧
+    Vtk.accepts (Vtk.write "t" "1" [["0", "0", "0"]] [] [⟨"a", 5, [["1", "2", "3", "4", "5"]]⟩]) = false ∧
+    Vtk.accepts (Vtk.write "t" "1" [["0", "0", "0"]] [[0, 0, 0]] [⟨"a", 2, [["1", "2"]]⟩]) = true := by decide
 
 end NgVerif.Props.C17
